@@ -265,7 +265,10 @@ impl Manifest {
                     last_rollover,
                     poison: None,
                 };
-                if manifest.is_file() {
+                // NOTE:  An empty MANIFEST holds no edit (the process died after creating the
+                // file and before its first edit was durable).  Rolling it over would leave an
+                // empty fragment followed by a roll-up of nothing, which nothing can chain from.
+                if manifest.is_file() && metadata(&manifest)?.len() > 0 {
                     this.rollover()?;
                 }
                 Ok(this)
@@ -302,10 +305,25 @@ impl Manifest {
     /// Rollover the log.
     pub fn rollover(&mut self) -> Result<(), SError> {
         let edit = Self::to_edit(&self.strs, &self.info);
-        let next_id = self.last_rollover;
-        self.last_rollover += 1;
-        let back = BACKUP(&self.root, next_id);
-        self.poison(hard_link(MANIFEST(&self.root), back))?;
+        // NOTE:  If the newest backup is the very file MANIFEST names, an earlier rollover died
+        // after linking the backup and before renaming the roll-up into place.  Finish that
+        // rollover instead of linking a second, identical fragment that does not chain.
+        let interrupted = self.last_rollover > 0 && {
+            use std::os::unix::fs::MetadataExt;
+            match (
+                metadata(MANIFEST(&self.root)),
+                metadata(BACKUP(&self.root, self.last_rollover - 1)),
+            ) {
+                (Ok(cur), Ok(prev)) => cur.dev() == prev.dev() && cur.ino() == prev.ino(),
+                _ => false,
+            }
+        };
+        if !interrupted {
+            let next_id = self.last_rollover;
+            self.last_rollover += 1;
+            let back = BACKUP(&self.root, next_id);
+            self.poison(hard_link(MANIFEST(&self.root), back))?;
+        }
         let tmp = TEMPORARY(&self.root);
         if tmp.exists() {
             self.poison(remove_file(&tmp))?
